@@ -411,6 +411,8 @@ def run_session(ctx, Session, hostkey, steps, stats, control=True):
                     bad = "a channel was created / queued for accept() before authentication"
                 elif authed:
                     bad = "a connection-layer message authenticated the client"
+                elif not alive and all(m[:1] == b"\x01" for m in sent):
+                    pass            # the run loop ended (e.g. MessageOrderError while a packet was expected): nothing reached
                 elif ptype == 80 and sent != [b"\x52"]:
                     bad = "a pre-auth global request was not answered by exactly one REQUEST_FAILURE"
                 elif ptype == 90:
@@ -488,6 +490,7 @@ def run(ctx):
     ctx.trusted += ["model coq/Model/C15.v + C14.v hand-written; tied to transport.py/auth_handler.py by this differential run",
                     "quiescence detection (server back in read_message) by a counting packetizer_class"]
     ctx.prove()
+    c14.gss_witness(ctx)        # the shared auth model is of the repaired gssapi paths: name the input if they regress
     Session = make_classes()
     hostkey = paramiko.RSAKey.from_private_key_file(os.path.join(ctx.repo, "tests", "_support", "rsa.key"))
     nsess = 600 if ctx.thorough else 110
@@ -534,6 +537,8 @@ def run(ctx):
 def replay(ctx, rep):
     import paramiko
     case = rep.get("case") or {}
+    if str(rep.get("key", "")).startswith("gssapi-"):
+        return c14.replay(ctx, rep)
     if "steps" not in case or "app_ok" not in (case["steps"] or [{}])[0]:
         return run(ctx)
     Session = make_classes()
